@@ -16,6 +16,8 @@ type WindowStats struct {
 	C17Windows     int
 	C17LapsedReads int // lease reads judged by the lapsed-lease rule
 	C17LapsedOK    int // ... that (correctly) returned an error/timeout
+	C17PrecondFail string
+	Discarded      int // violations discarded because the window's precondition did not hold
 }
 
 func has(xs []string, x string) bool {
@@ -31,8 +33,31 @@ func has(xs []string, x string) bool {
 func Windows(m *mon.Monitor) WindowStats {
 	var st WindowStats
 	evs := m.Events
+	// violations of a window are held back until its measured precondition is known: a window whose premise
+	// (prompt contact / bounded delay and stalls) did not hold on this run is inconclusive, never violated
+	var pending []mon.Violation
 	add := func(props []string, sig, node, format string, args ...interface{}) {
-		m.AddViolation(mon.Violation{Props: props, Sig: sig, Node: node, Msg: fmt.Sprintf(format, args...)})
+		pending = append(pending, mon.Violation{Props: props, Sig: sig, Node: node, Msg: fmt.Sprintf(format, args...)})
+	}
+	flush := func(ok bool) {
+		if ok {
+			for _, v := range pending {
+				m.AddViolation(v)
+			}
+		} else {
+			st.Discarded += len(pending)
+		}
+		pending = nil
+	}
+	endInfo := func(e *mon.Event) (stall int64, rtt int64) {
+		f := strings.Split(e.Str, "|")
+		if len(f) > 1 {
+			stall, _ = strconv.ParseInt(f[1], 10, 64)
+		}
+		if len(f) > 2 {
+			rtt, _ = strconv.ParseInt(f[2], 10, 64)
+		}
+		return
 	}
 	for i := 0; i < len(evs); i++ {
 		if evs[i].Kind != mon.KPhase {
@@ -95,9 +120,21 @@ func Windows(m *mon.Monitor) WindowStats {
 				}
 			}
 			st.C16MaxGapUs = maxGap / 1000
+			okw := true
 			if maxGap >= et/2 {
+				okw = false
 				st.C16PrecondFail = fmt.Sprintf("heartbeat gap %d ms on a majority-side link >= half the election timeout (%d ms)", maxGap/1e6, et/1e6)
 			}
+			if j < len(evs) {
+				if stall, _ := endInfo(&evs[j]); stall >= et/4 {
+					okw = false
+					st.C16PrecondFail = fmt.Sprintf("scheduler stall of %d ms >= a quarter of the election timeout during the window", stall/1e6)
+				}
+			} else {
+				okw = false
+				st.C16PrecondFail = "window not closed"
+			}
+			flush(okw)
 		case "c17.start":
 			// c17.start|oldLeader|voter,ids|leaseNs|etNs
 			if len(f) < 5 {
@@ -107,11 +144,21 @@ func Windows(m *mon.Monitor) WindowStats {
 			voters := strings.Split(f[2], ",")
 			lease, _ := strconv.ParseInt(f[3], 10, 64)
 			st.C17Windows++
+			et, _ := strconv.ParseInt(f[4], 10, 64)
 			lastVoterReply := evs[i].W
 			calls := map[string]int64{}
+			closed := false
 			for j := i + 1; j < len(evs); j++ {
 				e := &evs[j]
 				if e.Kind == mon.KPhase && strings.HasPrefix(e.Str, "c17.end") {
+					closed = true
+					stall, rtt := endInfo(e)
+					if lease+rtt+stall >= et {
+						st.C17PrecondFail = fmt.Sprintf("timing assumption not met on this run: lease %d ms + max round trip %d ms + max stall %d ms >= election timeout %d ms", lease/1e6, rtt/1e6, stall/1e6, et/1e6)
+						flush(false)
+					} else {
+						flush(true)
+					}
 					break
 				}
 				switch e.Kind {
@@ -140,6 +187,10 @@ func Windows(m *mon.Monitor) WindowStats {
 						}
 					}
 				}
+			}
+			if !closed {
+				st.C17PrecondFail = "window not closed"
+				flush(false)
 			}
 		}
 	}
